@@ -11,7 +11,7 @@
  *         the FAULT-th element copy of the batch throws. Post: no exception leaves handle_operations; exactly the push whose
  *         copy threw is FAILED and left no element behind; every other operation of the batch is unaffected (same oracles,
  *         with the failed push treated as absent). PART 4: the public push() end to end: a throwing copy reaches this caller
- *         as an exception and leaves the queue unchanged; a later push succeeds.
+ *         as an exception and leaves the queue unchanged; a later push succeeds. PART 5 (-DCOPYONLY unit): copy-only element type.
  * Harness-side loops are macro-unrolled (REP8) so that --unwind only has to cover the loops of the real code. */
 #include "w.h"
 #include "vp.h"
@@ -180,6 +180,23 @@ int main(void) {
   VP_ASSERT(!threw2 && vp_exc == 0, "push after a failed push must succeed (handler released, aggregator usable)");
   snapshot();
   VP_ASSERT(nfin == (u64)(fault_at == 1 ? 1 : 2) && vp_q_mark(Q) == nfin && vp_q_mysize(Q) == nfin && heap_ok(nfin), "queue state wrong after the second push");
+#elif PART == 5 && defined(EXC)
+  /* copy-only element type: every std::move in the queue is a copy CONSTRUCTION or a (non-throwing) copy assignment.
+     One element is pushed without fault; during the second public push() the FAULT-th copy construction throws
+     (1 = vector::push_back inside the try block, 2 = `to_place` in heapify(), which runs outside it). */
+  fault_at = 0;
+  int a = nd_int(), b = nd_int();
+  u32 t1 = vp_q_push_catch(Q, (u32)a);
+  VP_ASSERT(!t1 && vp_exc == 0 && vp_q_dsize(Q) == 1, "first push (no fault) failed");
+  ncopies = 0; fault_at = FAULT;
+  u32 threw = vp_q_push_catch(Q, (u32)b);
+  VP_ASSERT(vp_exc == 0, "exception pending after the catching caller");
+  VP_ASSERT(ncopies >= FAULT, "harness: fault position not reached (vacuous)");
+  snapshot();
+  VP_ASSERT(vp_q_busy(Q) == 0 && vp_q_pending(Q) == 0, "aggregator left busy after an exception: every later operation on the queue spins forever");
+  VP_ASSERT(!threw || nfin == 1, "push() threw although its element was inserted");
+  VP_ASSERT(threw || nfin == 2, "push() returned normally but its element is missing");
+  VP_ASSERT(vp_q_mark(Q) == nfin && vp_q_mysize(Q) == nfin && heap_ok(nfin), "queue state inconsistent after the throwing push (mark / my_size / heap)");
 #elif PART == 2 || PART == 3
   static int v0[CAP];
 #ifdef NN   /* element count and mark concrete per query (loop control of the kernels becomes concrete), values symbolic */
